@@ -307,10 +307,21 @@ func checkC15(c *Check) {
 	// (2) aggregation
 	if afs := c.P.fn(agg); afs != nil {
 		okI, why := countAllIdiom(c, afs)
-		if !okI {
-			c.undecided("O-C15.2", "aggregation fold", "the aggregation of revocation results is not the recognised count-all fold: "+why, c.P.pos(afs.Decl.Pos()))
-		} else {
+		flagIdiom := false
+		switch {
+		case okI:
 			c.add("O-C15.2", "aggregation fold", "count-all fold: a counter from 0, incremented once per element only when Result is OK or NonRevokable, over every index, compared with len(results) before the only nil return", true, c.P.pos(afs.Decl.Pos()))
+		default:
+			okG, how := false, "no graph"
+			if apg := c.pgOf(agg); apg != nil {
+				okG, how = foldAllOK(c, apg, afs)
+			}
+			if okG {
+				flagIdiom = strings.Contains(how, "flag idiom")
+				c.add("O-C15.2", "aggregation fold", "the accepting return is reached only if every element's Result was tested OK or NonRevokable: "+how, true, c.P.pos(afs.Decl.Pos()))
+			} else {
+				c.undecided("O-C15.2", "aggregation fold", "the aggregation of revocation results is neither the recognised count-all fold ("+why+") nor decided by path analysis ("+how+")", c.P.pos(afs.Decl.Pos()))
+			}
 		}
 		if apg := c.pgOf(agg); apg != nil {
 			aok := returnsWhere(apg, func(s *PState) bool { return retNilErr(s, 0) })
@@ -318,10 +329,12 @@ func checkC15(c *Check) {
 			c.add("O-C15.2", "single accepting return", "the aggregation has exactly one nil return", len(distinctNodes(aok)) == 1, posOf(apg, aok))
 			c.mustPass(apg, "O-C15.2", "results not empty", "accepting the revocation results", aok, A("-Empty(p0)"))
 			c.mustPass(apg, "O-C15.2", "one result per certificate", "accepting the revocation results", aok, A("+Eq(len(p0), len(p1))"))
-			c.mustPass(apg, "O-C15.2", "all results counted", "accepting the revocation results", aok, AG("+Eq(*, len(p0))"))
+			if !flagIdiom {
+				c.mustPass(apg, "O-C15.2", "all results counted", "accepting the revocation results", aok, AG("+Eq(*, len(p0))"))
+			}
 			// Revoked => immediate error: from a +Eq(3, elem.Result) edge no nil return
 			rev := LP{Desc: "element is Revoked", F: func(l Label) bool {
-				return l.Kind == "atom" && l.Pol && strings.HasPrefix(l.Key, "Eq(3, p0[") && strings.HasSuffix(l.Key, "].Result)")
+				return l.Kind == "atom" && l.Pol && (strings.HasPrefix(l.Key, "Eq(3, p0[") || l.Key == "Eq(3, re(p0).Result)") && strings.HasSuffix(l.Key, ".Result)")
 			}}
 			c.floor("Revoked tests in the aggregation", 1, len(edgeTargets(apg, rev)))
 			c.noPathFrom(apg, "O-C15.2", "a Revoked certificate aborts", "after a Revoked element the aggregation cannot accept", rev, aok, nil)
@@ -339,6 +352,14 @@ func checkC15(c *Check) {
 	for _, s := range sites {
 		fn := c.P.abbrev(s.Fn.Obj.FullName())
 		spg := c.skeleton(fn)
+		if strings.Contains(fn, "/cose.") && !strings.HasSuffix(fn, ").Sign") {
+			// the call sits in a helper of the COSE Sign: analyse Sign with that helper inlined
+			for _, f := range discoverFormats(c) {
+				if f.name == "COSE" {
+					spg = c.skeleton(f.method("Sign"), fn)
+				}
+			}
+		}
 		if spg == nil {
 			continue
 		}
@@ -453,4 +474,193 @@ func paramOfType(pg *PG, suffix string) string {
 		}
 	}
 	return ""
+}
+
+// foldAllOK decides "nil is returned only if every element of p0 was tested OK
+// or NonRevokable" on the product graph, for any loop form: (B) by feasibility
+// (an iteration that does not pass the test can no longer reach the accepting
+// return: flag idioms), else (A) by the counting argument (a counter from 0,
+// incremented at most once per iteration and only after the test, compared
+// with len(p0) on the way to the accepting return, loop over every index).
+func foldAllOK(c *Check, pg *PG, fs *FuncSrc) (bool, string) {
+	var okv, nrv string
+	for path, pk := range c.P.All {
+		if strings.HasSuffix(path, "/revocation/result") && pk.Types != nil {
+			if k, ok := pk.Types.Scope().Lookup("ResultOK").(*types.Const); ok {
+				okv = k.Val().String()
+			}
+			if k, ok := pk.Types.Scope().Lookup("ResultNonRevokable").(*types.Const); ok {
+				nrv = k.Val().String()
+			}
+		}
+	}
+	if okv == "" || nrv == "" {
+		return false, "result constants not found"
+	}
+	okTest := LP{Desc: "element tested OK or NonRevokable", F: func(l Label) bool {
+		if l.Kind != "atom" || !l.Pol || !strings.HasSuffix(l.Key, ".Result)") {
+			return false
+		}
+		for _, v := range []string{okv, nrv} {
+			if strings.HasPrefix(l.Key, "Eq("+v+", p0[") || l.Key == "Eq("+v+", re(p0).Result)" {
+				return true
+			}
+		}
+		return false
+	}}
+	// the loop: heads and body entries
+	heads := map[*Node]bool{}
+	var body []*PState
+	for _, s := range pg.States {
+		n := s.Node
+		if n.Note == "forhead" {
+			heads[n] = true
+		}
+		if n.Note == "forbody" {
+			body = append(body, s)
+		}
+		if n.Kind == NRange {
+			heads[n] = true
+		}
+	}
+	body = append(body, edgeTargets(pg, RangeNext("p0"))...)
+	nloops := map[int]bool{}
+	for n := range heads {
+		nloops[n.LoopID] = true
+	}
+	if len(nloops) != 1 || len(body) == 0 {
+		return false, "expected exactly one loop in the aggregation"
+	}
+	// every index visited
+	visits := len(edgeTargets(pg, RangeNext("p0"))) > 0
+	if !visits {
+		info := fs.Pkg.TypesInfo
+		var p0 types.Object
+		if names := fs.Decl.Type.Params.List[0].Names; len(names) > 0 {
+			p0 = info.Defs[names[0]]
+		}
+		ast.Inspect(fs.Decl.Body, func(n ast.Node) bool {
+			if f, ok := n.(*ast.ForStmt); ok && f.Init != nil {
+				if as, ok := f.Init.(*ast.AssignStmt); ok && len(as.Lhs) == 1 {
+					if id, ok := as.Lhs[0].(*ast.Ident); ok {
+						if y := c.P.counterLoopBound(info.Defs[id]); y != nil {
+							if yid, ok := ast.Unparen(y).(*ast.Ident); ok && info.Uses[yid] == p0 {
+								visits = true
+							}
+						}
+					}
+				}
+			}
+			return true
+		})
+	}
+	if !visits {
+		return false, "the loop is not recognised as visiting every index of the results"
+	}
+	accept := inSet(returnsWhere(pg, func(s *PState) bool { return retNilErr(s, 0) }))
+	// walk from the body entries without passing the test, stopping at the head
+	walk := func(from []*PState, blocked func(*PEdge) bool, stopAtHead bool) (reached map[*PState]bool, atHead []*PState, edges []*PEdge) {
+		reached = map[*PState]bool{}
+		queue := append([]*PState{}, from...)
+		for _, s := range from {
+			reached[s] = true
+		}
+		for len(queue) > 0 {
+			s := queue[0]
+			queue = queue[1:]
+			for _, e := range s.Out {
+				if blocked != nil && blocked(e) {
+					continue
+				}
+				edges = append(edges, e)
+				if stopAtHead && heads[e.To.Node] {
+					atHead = append(atHead, e.To)
+					continue
+				}
+				if !reached[e.To] {
+					reached[e.To] = true
+					queue = append(queue, e.To)
+				}
+			}
+		}
+		return
+	}
+	c.Searches++
+	reached, bad, _ := walk(body, blockedBy(okTest), true)
+	for s := range reached {
+		if accept(s) {
+			return false, "the accepting return is reachable from inside an iteration that did not pass the test (break/return)"
+		}
+	}
+	// (B) feasibility
+	c.Searches++
+	after, _, _ := walk(bad, nil, false)
+	feasible := false
+	for s := range after {
+		if accept(s) {
+			feasible = true
+		}
+	}
+	if !feasible {
+		return true, "after an iteration without the test the accepting return is unreachable (flag idiom, decided by the path-sensitive store)"
+	}
+	// (A) counting
+	var counter *Var
+	isInc := func(l Label) bool {
+		return l.Kind == "assign" && l.T != nil && l.T.V != nil && l.T2 != nil && l.T2.Key() == "(self + 1)"
+	}
+	for _, s := range pg.States {
+		for _, e := range s.Out {
+			for _, l := range e.Labels {
+				if isInc(l) {
+					if counter != nil && counter != l.T.V {
+						return false, "more than one incremented variable"
+					}
+					counter = l.T.V
+				}
+			}
+		}
+	}
+	if counter == nil {
+		return false, "no counter is incremented in the loop and an iteration without the test can still reach the accepting return"
+	}
+	for _, s := range pg.States {
+		for _, e := range s.Out {
+			for _, l := range e.Labels {
+				if l.Kind == "assign" && l.T != nil && l.T.V == counter && !isInc(l) && (l.T2 == nil || l.T2.Key() != "0") {
+					return false, "the counter is assigned something other than 0 or itself plus one"
+				}
+			}
+		}
+	}
+	inc := func(e *PEdge) bool { return e.has(isInc) }
+	c.Searches++
+	_, _, es := walk(body, blockedBy(okTest), true)
+	for _, e := range es {
+		if inc(e) {
+			return false, "the counter can be incremented in an iteration that did not pass the test"
+		}
+	}
+	var afterInc []*PState
+	for _, s := range pg.States {
+		for _, e := range s.Out {
+			if inc(e) {
+				afterInc = append(afterInc, e.To)
+			}
+		}
+	}
+	c.Searches++
+	_, _, es = walk(afterInc, nil, true)
+	for _, e := range es {
+		if inc(e) {
+			return false, "the counter can be incremented twice in one iteration"
+		}
+	}
+	cmp := LP{Desc: "counter equals len(results)", F: func(l Label) bool {
+		return l.Kind == "atom" && l.Pol && globMatch("Eq(*, len(p0))", l.Key) && l.Node != nil && l.Node.Cond != nil && l.Node.Cond.mentionsVar(counter)
+	}}
+	if okc, _ := c.cut(pg, returnsWhere(pg, func(s *PState) bool { return retNilErr(s, 0) }), cmp); !okc {
+		return false, "the accepting return is reachable without comparing the counter with len(results)"
+	}
+	return true, "counting argument: counter from 0, incremented at most once per iteration and only after the test, equal to len(results) on the way to the accepting return, loop over every index"
 }
